@@ -29,7 +29,7 @@ MECH = ["nutree.dot:node_to_dot", "nutree.dot:tree_to_dotfile", "nutree.mermaid:
 MIN_NONTRIVIAL = {"quick": 300, "thorough": 3000}
 EXHAUSTIVE = {"quick": True, "thorough": True}
 FLAVOURS = ["str", "int", "ids"]
-KINDS = ["k1", "k2", "enth\u00e4lt", "is {to_id} of", "{}", "50%s"]  # a non-ASCII kind; kinds that look like template fields
+KINDS = ["k1", "k2", "enth\u00e4lt", "is {to_id} of", "{}", "50%s", "child"]  # a non-ASCII kind; kinds that look like template fields
 
 
 def build(case):
